@@ -161,6 +161,10 @@ OnCret(m, e) ==
       \* C14: no further item is taken from the source after the first error was observed
       b14 == V(m.fam = "co" /\ c = 0 /\ e.r = "some" /\ m.errSeen,
                "C14", <<"item taken from the source after an error was observed", e.v>>)
+      \* C14: futures still in flight when an error is observed are dropped unfinished (cancelled), not run
+      \* to completion
+      b14b == V(m.fam = "co" /\ m.term \in {"try_for_each", "collect_result"} /\ ch.work /\ m.errSeen /\ e.r = "ready",
+                "C14", <<"a per-item future ran to completion after an error had been observed", c>>)
       m1 == [m EXCEPT !.ch = (c :> nch) @@ m.ch,
                       !.prod = IF hasv THEN @ \cup {e.v} ELSE @,
                       !.vown = IF hasv THEN (e.v :> c) @@ @ ELSE @,
@@ -170,7 +174,7 @@ OnCret(m, e) ==
                       !.cur = IF m.fam = "co" /\ ch.work /\ isOk /\ hasv THEN (ch.item :> e.v) @@ @ ELSE @,
                       !.errFirst = IF isErr /\ ~m.errSeen THEN e.v ELSE @,
                       !.okFirst = IF firstOk THEN e.v ELSE @]
-  IN AddBad(m1, b14)
+  IN AddBad(m1, b14 \cup b14b)
 
 \* --- fire / pwake / fired ---------------------------------------------
 OnFire(m, e) ==
